@@ -1,6 +1,8 @@
 """C20 -- a satisfiable byte-range request returns exactly the requested slice."""
+import itertools
 import random as _random
 import re
+from fractions import Fraction
 
 from harness.coqfmt import B, L, N, X, opt
 
@@ -14,7 +16,9 @@ RULE = ('T2: int(bytes), Headers.element("Range") (Range.parse + prevent_denial_
 	'ComposedResponse.prepare() (status, Content-Range, Content-Type, Content-Length, body) evaluated by the Gallina model (vm_compute) and by the '
 	'implementation on the same inputs: every range 0 <= first < last < n for small n, random representations up to 4096 octets, 2-4 disjoint similar '
 	'ranges in every order, overlapping / dissimilar / suffix / open-ended / out-of-bounds ranges, each precondition of range_conditions switched off, '
-	'single-octet and structured mutations of valid Range values. Oracle: the slice / multipart statement directly on the prepared response. '
+	'single-octet and structured mutations of valid Range values; every multiset of 2-5 range lengths differing by 0..6 octets (both sides of the admission threshold) as disjoint ranges in random order. '
+	'Oracle: the slice / multipart statement directly on the prepared response; which sets of closed ranges must be served is decided by an independent exact-rational restatement of the documented '
+	'admission rule (no two ranges sharing two or more octets, population variance of the range lengths <= 4): admitted and disjoint -> 206 multipart with exactly the slices, refused -> 416 with the complete representation. '
 	'non-trivial = distinct (kind, input) reaching 206, 416 or a refused precondition')
 EXHAUSTIVE = {'quick': False, 'thorough': False}
 TRUSTED = ['harness/tables/elemlex.py + harness/tables/range.py (T1: bytes.strip set, int() octet classes, pinned split patterns, TSPECIALS, part-header template, BytesIO clamping probes)',
@@ -86,6 +90,36 @@ def _disjoint(rng, n, k):
 		out.append((pos, pos + ln - 1))
 		pos += ln
 	return out
+
+
+def _threshold_sets(rng, passes, maxbase):
+	"""every multiset of k = 2..5 range lengths base + {0..6} (smallest = base), as disjoint closed ranges: both sides of the
+	admission threshold of the documented denial-of-service rule (population standard deviation of the lengths against 2.0)"""
+	out = []
+	for p in range(passes):
+		for k in range(2, 6):
+			for rest in itertools.combinations_with_replacement(range(7), k - 1):
+				base = rng.randint(2, maxbase if p else 9)
+				lens = [base] + [base + x for x in rest]
+				rng.shuffle(lens)
+				pos = rng.randint(0, 5)
+				rs = []
+				for ln in lens:
+					rs.append((pos, pos + ln - 1))
+					pos += ln + rng.choice([0, 0, 1, 2, 3, 7])
+				n = pos + rng.randint(0, 5)
+				order = list(rs)
+				rng.shuffle(order)
+				plain = rng.random() < 0.8
+				v = b'bytes=' + (b',' if plain else _sep(rng)).join((b'%d-%d' % x) if plain else _spec(rng, *x) for x in order)
+				out.append({'k': 'prep', 'v': v.hex(), 'd': _rdata(rng, n).hex(), 'ct': rng.choice(CTYPES), 'flags': {}, 'want': [list(x) for x in order], 'lens': sorted(lens)})
+	return out
+
+
+# the witnesses of the seeded admission-rule change (seeded/C20-6) and their neighbours on the refused side
+NEAR = [b'bytes=0-3,10-16', b'bytes=0-3,10-17', b'bytes=0-3,10-18', b'bytes=40-47,100-111', b'bytes=40-47,100-112', b'bytes=0-3,10-13,20-27', b'bytes=0-3,10-13,20-28',
+	b'bytes=0-1,10-12,20-24,30-36', b'bytes=0-1,10-12,20-24,30-37', b'bytes=0-1,3-4,6-7,9-10,12-18', b'bytes=0-1,3-4,6-7,9-10,12-19', b'bytes=20-27,0-3,10-13',
+	b'bytes=0-5,5-9', b'bytes=0-5,4-9', b'bytes=0-9,2-5', b'bytes=0-3,3-9', b'bytes=0-3,2-9']
 
 
 def _mutate(rng, v):
@@ -181,7 +215,6 @@ def gen_cases(rng, tier):
 		rng.shuffle(order)
 		sep = _sep(rng)
 		cases.append({'k': 'prep', 'v': (b'bytes=' + sep.join(_spec(rng, f, l) for f, l in order)).hex(), 'd': _rdata(rng, n).hex(), 'ct': rng.choice(CTYPES), 'flags': {}, 'want': [list(x) for x in order]})
-	import itertools
 	for _ in range(40 if big else 8):
 		n = rng.randint(12, 40)
 		rs = _disjoint(rng, n, 3)
@@ -190,6 +223,10 @@ def gen_cases(rng, tier):
 		d = _rdata(rng, n)
 		for order in itertools.permutations(rs):
 			cases.append({'k': 'prep', 'v': (b'bytes=' + b','.join(b'%d-%d' % x for x in order)).hex(), 'd': d.hex(), 'ct': 'text/plain', 'flags': {}, 'want': [list(x) for x in order]})
+	# sets of 2-5 disjoint ranges around the admission threshold, systematically (quick tier too)
+	cases.extend(_threshold_sets(rng, 4 if big else 1, 60))
+	for v in NEAR:
+		cases.append({'k': 'prep', 'v': v.hex(), 'd': _rdata(rng, 120).hex(), 'ct': rng.choice(CTYPES), 'flags': {}})
 	# other shapes: suffix, open, out of bounds, overlapping, dissimilar, duplicates
 	for _ in range(3000 if big else 400):
 		n = rng.randint(1, 40)
@@ -381,6 +418,26 @@ def _read_multipart(body, bd):
 	return out
 
 
+def _admission(uniq):
+	"""The documented admission rule for a request of several byte ranges, restated for distinct closed ranges first-last inside the
+	representation, independently of the implementation and of the Gallina model (exact rationals, no floats):
+	  * two ranges that have two or more octets in common are refused ("duplicated range"),
+	  * the population standard deviation of the range lengths must not exceed 2.0, i.e. the population variance (mean of the squared
+	    deviations from the mean, divisor = number of ranges) must not exceed 4; lengths in octets (last + 1 - first) or as differences
+	    last - first give the same variance,
+	  * there is no limit on the number of closed ranges (the count limits concern suffix and open-ended ranges only).
+	Returns 'serve', 'refuse' or None (no expectation: ranges sharing exactly one octet are neither disjoint nor refused by the rule)."""
+	shared = [min(a[1], b[1]) - max(a[0], b[0]) + 1 for a, b in itertools.combinations(uniq, 2)]
+	lens = [Fraction(l + 1 - f) for f, l in uniq]
+	mean = sum(lens) / len(lens)
+	variance = sum((x - mean) ** 2 for x in lens) / len(lens)
+	if any(s >= 2 for s in shared) or variance > 4:
+		return 'refuse'
+	if any(s == 1 for s in shared):
+		return None
+	return 'serve'
+
+
 def oracle(c, o):
 	k = c['k']
 	if 'harness_exception' in o or str(o.get('err', '')).startswith('escape'):
@@ -429,6 +486,14 @@ def oracle(c, o):
 	similar = max(lens) - min(lens) <= 2
 	if disjoint and similar and 2 <= len(uniq) <= 4 and st != 206:
 		return 'multi: %d disjoint similar ranges answered with %d' % (len(uniq), st)
+	if len(uniq) == len(specs) and len(uniq) >= 2:
+		verdict = _admission(uniq)
+		if verdict == 'serve' and st != 206:
+			return 'multi-admission: %d disjoint ranges of lengths %r (within the documented spread) answered with %d and a body of %d octets instead of 206 multipart/byteranges' % (len(uniq), lens, st, len(body))
+		if verdict == 'refuse' and st != 416:
+			return 'multi-refusal: %d ranges of lengths %r that the documented rule refuses (overlap or spread) answered with %d instead of 416' % (len(uniq), lens, st)
+		if verdict == 'refuse' and body != d:
+			return 'multi-refusal: 416 for a refused set of ranges carries %d octets instead of the complete representation (%d)' % (len(body), n)
 	if st == 206 and len(uniq) >= 2:
 		ct = bytes.fromhex(o['ct'] or '')
 		if not ct.startswith(b'multipart/byteranges') or o['bd'] is None:
